@@ -2,7 +2,7 @@
    ExtrOcamlBasic only (bool, option, unit, list, prod, sumbool, ... as OCaml's own);
    N, Z, positive, nat and byte stay Coq datatypes.  No Extract Constant. *)
 From Coq Require Import extraction.Extraction extraction.ExtrOcamlBasic.
-From IKE Require Import Lib.Base Prim.Hmac Spec.PrfPlus Impl.EapAkaPrf Impl.Msg Impl.Eap Impl.Payloads Impl.Message Prim.Cbc Impl.Security Impl.Ike Spec.Modp Impl.Dh Impl.Registry Impl.Build Spec.Wire Spec.WireParse Thm.DomainB.
+From IKE Require Import Lib.Base Prim.Hmac Spec.PrfPlus Impl.EapAkaPrf Impl.Msg Impl.Eap Impl.Payloads Impl.Message Prim.Cbc Impl.Security Impl.Ike Spec.Modp Impl.Dh Impl.Registry Impl.Build Spec.Wire Spec.WireParse Spec.AkaMac Thm.DomainB.
 Extraction Language OCaml.
 Extraction "model.ml"
   b2n n2b be_val N.of_nat
@@ -15,7 +15,7 @@ Extraction "model.ml"
   draw prf_plus_obj pkcs7_padding aes_encrypt aes_decrypt new_crypto cbc_enc cbc_dec
   generate_key_for_ikesa sa_of_keys generate_key_for_childsa prf_once ho_new ho_sum ho_write ho_reset
   calculate_integrity encrypt_msg encode_encrypt decrypt_msg decode_decrypt
-  calc_at_mac
+  calc_at_mac zero_mac at_mac_spec
   be_min dh_public dh_shared generate_random_number dh_materials dh_prime dh_len
   encr_to_transform encr_decode integ_to_transform integ_decode prf_to_transform prf_decode
   dh_to_transform dh_decode esn_to_transform esn_decode ike_to_proposal ike_of_proposal
